@@ -771,3 +771,19 @@ def builtin_names_only_for_opaque_reprs(ctx):
             ok = isinstance(d, ast.Call) and 'repr1' in norm(d.func) and any(is_name(a, x) for a in d.args)
             ctx.ob(ok, u, 'the tested text is the ordinary repr of the same object: %s' % norm(d))
     ctx.floor(3)
+
+
+@rule('C18.14')
+def bbrepr_has_no_type_hooks(ctx):
+    """reprlib.Repr dispatches ``repr1`` to a method named ``repr_<typename>`` when one exists.
+    bbrepr must render every literal so that eval() gives it back, i.e. as the builtin repr does
+    (only the size limits are lifted and builtins are named): _BBRepr therefore defines no
+    ``repr_<type>`` hook of its own -- a compact ``slice(1)`` for ``slice(1, None)`` reads back as
+    ``slice(None, 1)``"""
+    c = ctx.cls('core._BBRepr')
+    hooks = sorted(n for n in c.methods if n.startswith('repr_'))
+    ctx.ob(not hooks, c, '_BBRepr adds no per-type rendering (methods: %s)' % sorted(c.methods),
+           '' if not hooks else '%s: values of that type are no longer rendered by their own repr' % hooks)
+    extra = sorted(set(c.methods) - {'__init__', 'repr1'} - set(hooks))
+    ctx.ob(not extra, c, '_BBRepr overrides construction (limits) and repr1 (builtin names) only', '' if not extra else str(extra))
+    ctx.floor(2)
